@@ -12,6 +12,7 @@ mod cont_engine;
 mod derived;
 mod gen_queries;
 mod gen_tuples;
+mod guard_engine;
 mod query_engine;
 mod sched;
 mod world_engine;
